@@ -23,14 +23,19 @@ Fixpoint canon_t (t : term) (m : list Z) : term * list Z :=
   | _ => (t, m)
   end.
 
-Definition canon_answer (a : list term) : list term :=
-  fst (fold_left (fun acc t => let '(l, m0) := acc in let '(t', m1) := canon_t t m0 in (l ++ [t'], m1)) a ([], [])).
-
-Definition norm_ball (t : term) : term :=
+(** the Context of error(Formal, Context) is implementation defined and never
+    compared, wherever the error term occurs *)
+Fixpoint strip_ctx (t : term) : term :=
   match t with
-  | Cmp "error" [f; _] => Cmp "error" [fst (canon_t f [])]
-  | _ => fst (canon_t t [])
+  | Cmp "error" [f; _] => Cmp "error" [strip_ctx f; Atom "$ctx"]
+  | Cmp g args => Cmp g (map strip_ctx args)
+  | _ => t
   end.
+
+Definition canon_answer (a : list term) : list term :=
+  fst (fold_left (fun acc t => let '(l, m0) := acc in let '(t', m1) := canon_t (strip_ctx t) m0 in (l ++ [t'], m1)) a ([], [])).
+
+Definition norm_ball (t : term) : term := fst (canon_t (strip_ctx t) []).
 
 (** what the harness observed *)
 Inductive oend := OEndNo | OEndMore | OEndErr (ball : term) | OEndGo (msg : string).
@@ -57,7 +62,7 @@ Definition run_agree (fuel : nat) (db : list proc) (q : term) (qvars : list Z) (
   let '(ans, e) := run fuel db q qvars limit in
   match e with
   | EndFuel => 2
-  | _ => if list_eqb (list_eqb term_eqb) (map canon_answer ans) oans && end_agree e oe then 0 else 1
+  | _ => if list_eqb (list_eqb term_eqb) (map canon_answer ans) (map canon_answer oans) && end_agree e oe then 0 else 1
   end.
 
 Definition pcase := (Z * list term * term * list Z * nat * list (list term) * oend)%type.
@@ -91,7 +96,7 @@ Definition spec_agree (fuel : nat) (db : list sproc) (q : term) (qvars : list Z)
   let '(ans, e) := s_run fuel db QBASE q qvars limit in
   match e with
   | SEndFuel => 2
-  | _ => if list_eqb (list_eqb term_eqb) (map canon_answer ans) oans && send_agree e oe then 0 else 1
+  | _ => if list_eqb (list_eqb term_eqb) (map canon_answer ans) (map canon_answer oans) && send_agree e oe then 0 else 1
   end.
 
 (** per case: (id, model verdict, spec verdict) for every case where either is not 0 *)
